@@ -312,6 +312,35 @@ def full_script(steps):
     return actions
 
 
+def run_write_faults(ctx, name, role, steps, only=None):
+    """The peer disconnects (resets the connection) and the local side finds out while WRITING: the k-th write of
+    the conversation and everything after it fails, for every k.  Same obligations as for a disconnect seen on a
+    read: loop returns, idle, transport closed, ARTIM stopped, engaged user told."""
+    script = full_script(steps)
+    clean = simnet.run_scenario(role, script + [{'k': 'tick', 'dt': ARTIM + 1}])
+    writes = len([e for e in clean.log if e[0] == 'send'])
+    for k in range(writes):
+        if only is not None and only != k:
+            continue
+        case = {'kind': 'write-fault', 'conv': name, 'write': k}
+        sim = simnet.run_scenario(role, script + [{'k': 'tick', 'dt': ARTIM + 1}], write_fault=k)
+        ctx.case(('write-fault', name, k), True, labels=['write-fault', 'conv=' + name], sample=case)
+        inds = [getattr(i, 'pdu_type', 'dimse') for i in sim.indications()]
+        engaged = bool(inds) and inds[0] in (1, 2) or (role == 'requestor' and any(a['k'] == 'user' for a in script))
+        # did the local user itself already end the association before the failing write?
+        user_ended = False
+        try:
+            end_oracle(name, sim, case, engaged, user_ended, 'write %d of %d fails: connection reset by peer' % (k + 1, writes))
+        except Violation as v:
+            if v.key == 'C13:user-not-told':
+                # the failing write may be the user's own A-ABORT / A-RELEASE-RP / A-ASSOCIATE-RJ: then it knows
+                failing = [e for e in sim.log if e[0] == 'send-failed']
+                prims = [a for a in script if a['k'] == 'user']
+                if any(getattr(a['prim'], 'pdu_type', None) in (3, 6, 7) for a in prims):
+                    continue
+            ctx.fail(v.key.replace('C13:', 'C13:write-fault:', 1), v.what, v.case)
+
+
 def run_kill_stop(ctx, name, role, steps, only=None):
     base = full_script(steps)
     for i in range(len(base) + 1):
@@ -343,6 +372,7 @@ def run_conv(ctx, job):
     warnings.simplefilter('ignore')
     role, steps = corpus(job['thorough'])[job['conv']]
     run_disconnects(ctx, job['conv'], role, steps)
+    run_write_faults(ctx, job['conv'], role, steps)
     run_kill_stop(ctx, job['conv'], role, steps)
 
 
@@ -398,7 +428,7 @@ def run(ctx):
     c = corpus(ctx.thorough)
     ctx.exhaustive = True
     ctx.rule = ('for each of %d conversations (both roles): peer disconnect after EVERY byte prefix of the peer\'s '
-                'stream, with and without the next local step racing the disconnect; peer silence at each of 13 '
+                'stream, with and without the next local step racing the disconnect; the disconnect surfacing as a failure of the k-th local write, for every k; peer silence at each of 13 '
                 'points where ARTIM is armed (with a silent peer, a chattering peer and a peer that stalls in the middle of a PDU), checked just before and '
                 'just after the deadline; another association served to completion in the same process while a provider waits on ARTIM; a local user that fetches nothing while the peer pipelines 40 / 1100 messages, followed by each way of ending; a stop request (kill) and stop() at every quiescent point of every '
                 'conversation; Association.kill() for both stop() outcomes; non-trivial = cut strictly inside the '
@@ -418,10 +448,12 @@ def replay(case):
     from ..common import Ctx
     sub = Ctx('C13', 'quick', 1)
     k = case['kind']
-    if k in ('disconnect', 'kill', 'stop'):
+    if k in ('disconnect', 'kill', 'stop', 'write-fault'):
         role, steps = corpus(True)[case['conv']]
         if k == 'disconnect':
             run_disconnects(sub, case['conv'], role, steps, (case['cut'], case['user_after']))
+        elif k == 'write-fault':
+            run_write_faults(sub, case['conv'], role, steps, case['write'])
         else:
             run_kill_stop(sub, case['conv'], role, steps, case['at'])
     elif k == 'silence':
